@@ -796,6 +796,8 @@ func ruleErrDrops(c *Ctx, r *Report, clause string, pkgPrefixes ...string) int {
 		desc := "error of " + s.Callee + " discarded or tolerated in " + s.Fn
 		if reason, ok := tbl.ErrDrop[s.Key]; ok {
 			desc += " (reviewed: " + reason + ")"
+		} else if reason := w.tabledForAbsorbed(tbl.ErrDrop, s.Fn, s.Key); reason != "" {
+			desc += " (reviewed, in a helper that was since inlined here: " + reason + ")"
 		} else if strings.Contains(s.Key, ":tolerates(") {
 			viol = fmt.Sprintf("%s: %s tests the error returned by %s and then carries on (at most logging it): the failure is neither reported as the command's result nor stops the work that depends on it", w.pos(s.Pos), s.Fn, s.Callee)
 		} else {
@@ -835,6 +837,40 @@ func unrolledRecursion(w *World, tbl *crashTables, fn string, sccs [][]string) s
 		for _, member := range strings.Fields(key) {
 			if member == fn {
 				return "the reviewed recursion of this function written as a loop over an explicit stack (" + reason + ")"
+			}
+		}
+	}
+	return ""
+}
+
+// tabledForAbsorbed: key "<host>:<construct>" is tabled for a reviewed function that no longer
+// exists and whose body was absorbed into one of the hosts (a method turned into a plain
+// function, a helper inlined): the reviewed entry moves with the code.
+func (w *World) tabledForAbsorbed(table map[string]string, host, key string) string {
+	i := strings.Index(key, ":")
+	for j := i; j >= 0 && j < len(key); {
+		// host names contain ':' only in the separator we look for; constructs follow the last host part
+		break
+	}
+	construct := ""
+	for _, h := range hostParts(host) {
+		if strings.HasPrefix(key, host+":") {
+			construct = strings.TrimPrefix(key, host+":")
+		} else if strings.HasPrefix(key, h+":") {
+			construct = strings.TrimPrefix(key, h+":")
+		}
+	}
+	if construct == "" {
+		return ""
+	}
+	for _, h := range hostParts(host) {
+		hfi := w.Funcs[h]
+		if hfi == nil {
+			continue
+		}
+		for _, g := range w.vanishedFns() {
+			if reason, ok := table[g+":"+construct]; ok && w.absorbedInto(g, hfi) {
+				return reason
 			}
 		}
 	}
